@@ -19,15 +19,17 @@ theorem fill_sub_rest (maxB maxE : Nat) (evs : List Ev) (p : Nat) :
   | nil => simp [fill]
   | cons e es ih =>
     cases hs : e.size with
-    | none => simp [fill, hs, fits, ih]
+    | none =>
+      have hf : fits maxE e = false := by simp [fits, hs]
+      simp [fill, hs, hf, ih]
     | some s =>
       by_cases h1 : maxE < s
-      · have : ¬ s ≤ maxE := by omega
-        simp [fill, hs, fits, h1, this, ih]
-      · have h1' : s ≤ maxE := by omega
+      · have hf : fits maxE e = false := by simp [fits, hs]; omega
+        simp [fill, hs, hf, h1, ih]
+      · have hf : fits maxE e = true := by simp [fits, hs]; omega
         by_cases h2 : maxB < p + s
-        · simp [fill, hs, fits, h1, h1', h2]
-        · simp [fill, hs, fits, h1, h1', h2, ih]
+        · simp [fill, hs, hf, h1, h2]
+        · simp [fill, hs, hf, h1, h2, ih]
 
 theorem fill_dropped_rest (maxB maxE : Nat) (evs : List Ev) (p : Nat) :
     (fill maxB maxE p evs).dropped ++ (fill maxB maxE p evs).rest.filter (fun e => !fits maxE e)
@@ -36,15 +38,17 @@ theorem fill_dropped_rest (maxB maxE : Nat) (evs : List Ev) (p : Nat) :
   | nil => simp [fill]
   | cons e es ih =>
     cases hs : e.size with
-    | none => simp [fill, hs, fits, ih]
+    | none =>
+      have hf : fits maxE e = false := by simp [fits, hs]
+      simp [fill, hs, hf, ih]
     | some s =>
       by_cases h1 : maxE < s
-      · have : ¬ s ≤ maxE := by omega
-        simp [fill, hs, fits, h1, this, ih]
-      · have h1' : s ≤ maxE := by omega
+      · have hf : fits maxE e = false := by simp [fits, hs]; omega
+        simp [fill, hs, hf, h1, ih]
+      · have hf : fits maxE e = true := by simp [fits, hs]; omega
         by_cases h2 : maxB < p + s
-        · simp [fill, hs, fits, h1, h1', h2]
-        · simp [fill, hs, fits, h1, h1', h2, ih]
+        · simp [fill, hs, hf, h1, h2]
+        · simp [fill, hs, hf, h1, h2, ih]
 
 theorem fill_lengths (maxB maxE : Nat) (evs : List Ev) (p : Nat) :
     (fill maxB maxE p evs).sub.length + (fill maxB maxE p evs).dropped.length
@@ -249,5 +253,233 @@ theorem consts_ok : reserve + maxE ≤ maxB := by decide
 
 theorem split_complete (evs : List Ev) : (split evs).2 = true :=
   splitLoop_complete maxB maxE consts_ok _ _ (Nat.le_succ _)
+
+theorem hdrLen_le (n : Nat) : hdrLen n ≤ reserve := by
+  unfold hdrLen reserve
+  split
+  · omega
+  · split <;> omega
+
+theorem flatMap_congr' {α β : Type} (l : List α) (f g : α → List β) (h : ∀ x ∈ l, f x = g x) :
+    l.flatMap f = l.flatMap g := by
+  induction l with
+  | nil => rfl
+  | cons a t ih =>
+    simp only [List.flatMap_cons]
+    rw [h a List.mem_cons_self, ih (fun x hx => h x (List.mem_cons_of_mem _ hx))]
+
+/-! ## the retry loop and the accounting of one sub-batch -/
+
+/-- the counters a request/response exchange never touches before `finish` -/
+def SameQ (a b : Ctr) : Prop := a.ups = b.ups ∧ a.downs = b.downs ∧ a.rerr = b.rerr
+
+theorem tryLoop_spec (script : List Srv) (now : Nat) (mk : Nat → Attempt) (n : Nat) :
+    ∀ (left t : Nat) (last : Last) (acc : Acc),
+      let r := tryLoop script now mk n left t last acc
+      SameQ r.2.ctr acc.ctr ∧
+      (∃ l, r.2.log = acc.log ++ l ∧ l.length ≤ left ∧ ∀ a ∈ l, ∃ p, a = mk p) ∧
+      ((0 < left ∨ last ≠ .none) → r.1 ≠ .none) := by
+  intro left
+  induction left with
+  | zero =>
+    intro t last acc
+    refine ⟨⟨rfl, rfl, rfl⟩, ⟨[], by simp [tryLoop], by simp, by simp⟩, ?_⟩
+    intro h; rcases h with h | h
+    · omega
+    · simpa [tryLoop] using h
+  | succ k ih =>
+    intro t last acc
+    simp only [tryLoop]
+    -- the accumulator after the request has been made
+    generalize hacc1 : (if 0 < t then { acc with ctr := { acc.ctr with retries := acc.ctr.retries + 1 } } else acc) = acc1
+    have hq1 : SameQ acc1.ctr acc.ctr := by
+      subst hacc1; by_cases ht : 0 < t <;> simp [ht, SameQ]
+    have hl1 : acc1.log = acc.log := by
+      subst hacc1; by_cases ht : 0 < t <;> simp [ht]
+    cases hr : (script.getD acc1.pos Srv.ok) n with
+    | timeout =>
+      simp only []
+      have := ih (t + 1) .err { acc1 with log := acc1.log ++ [mk acc1.pos], pos := acc1.pos + 1 }
+      obtain ⟨⟨q1, q2, q3⟩, ⟨l, e1, e2, e3⟩, e4⟩ := this
+      refine ⟨⟨by rw [q1]; exact hq1.1, by rw [q2]; exact hq1.2.1, by rw [q3]; exact hq1.2.2⟩, ⟨mk acc1.pos :: l, ?_, ?_, ?_⟩, ?_⟩
+      · rw [e1]; simp [hl1]
+      · simp; omega
+      · intro a ha; rcases List.mem_cons.mp ha with rfl | ha
+        · exact ⟨_, rfl⟩
+        · exact e3 a ha
+      · intro _; exact e4 (Or.inr (by simp))
+    | netErr =>
+      simp only []
+      refine ⟨hq1, ⟨[mk acc1.pos], by simp [hl1], by simp, ?_⟩, by simp⟩
+      intro a ha; simp at ha; exact ⟨_, ha⟩
+    | http code ra de sts =>
+      simp only []
+      by_cases hc : (code = 429 ∨ code = 503) ∧ 0 < sleepDur now ra ∧ sleepDur now ra < 60 * second
+      · rw [if_pos hc]
+        have := ih (t + 1) (.resp code true [])
+          { acc1 with log := acc1.log ++ [mk acc1.pos], pos := acc1.pos + 1, sleeps := acc1.sleeps ++ [sleepDur now ra] }
+        obtain ⟨⟨q1, q2, q3⟩, ⟨l, e1, e2, e3⟩, e4⟩ := this
+        refine ⟨⟨by rw [q1]; exact hq1.1, by rw [q2]; exact hq1.2.1, by rw [q3]; exact hq1.2.2⟩, ⟨mk acc1.pos :: l, ?_, ?_, ?_⟩, ?_⟩
+        · rw [e1]; simp [hl1]
+        · simp; omega
+        · intro a ha; rcases List.mem_cons.mp ha with rfl | ha
+          · exact ⟨_, rfl⟩
+          · exact e3 a ha
+        · intro _; exact e4 (Or.inr (by simp))
+      · rw [if_neg hc]
+        refine ⟨hq1, ⟨[mk acc1.pos], by simp [hl1], by simp, ?_⟩, by simp⟩
+        intro a ha; simp at ha; exact ⟨_, ha⟩
+
+theorem respond_spec : ∀ (sub : List Ev) (sts : List Nat) (c : Ctr),
+    (respond sts sub c).ups = c.ups ∧ (respond sts sub c).downs = c.downs + sub.length ∧
+    c.rerr ≤ (respond sts sub c).rerr := by
+  intro sub
+  induction sub with
+  | nil => intro sts c; simp [respond]
+  | cons e es ih =>
+    intro sts c
+    cases sts with
+    | nil =>
+      obtain ⟨h1, h2, h3⟩ := ih [] { c with rerr := c.rerr + 1, downs := c.downs + 1 }
+      simp only [respond]
+      refine ⟨h1, ?_, ?_⟩
+      · rw [h2]; simp; omega
+      · simp at h3; omega
+    | cons st sts =>
+      simp only [respond]
+      by_cases h : st = 202
+      · rw [if_pos h]
+        obtain ⟨h1, h2, h3⟩ := ih sts { c with r20x := c.r20x + 1, downs := c.downs + 1 }
+        refine ⟨h1, ?_, h3⟩
+        rw [h2]; simp; omega
+      · rw [if_neg h]
+        obtain ⟨h1, h2, h3⟩ := ih sts { c with rerr := c.rerr + 1, downs := c.downs + 1 }
+        refine ⟨h1, ?_, ?_⟩
+        · rw [h2]; simp; omega
+        · simp at h3; omega
+
+theorem finish_spec (last : Last) (sub : List Ev) (c : Ctr) (h : last ≠ .none) :
+    (finish last sub c).ups = c.ups ∧ (finish last sub c).downs = c.downs + sub.length ∧
+    c.rerr ≤ (finish last sub c).rerr := by
+  cases last with
+  | none => exact absurd rfl h
+  | err => simp [finish, batchFailure]
+  | resp code de sts =>
+    simp only [finish]
+    by_cases hc : code = 200
+    · rw [if_pos hc]
+      by_cases hd : de = true
+      · have := respond_spec sub sts
+          { c with batchesSent := c.batchesSent + 1, msgsSent := c.msgsSent + sub.length, decodeErr := c.decodeErr + 1 }
+        simpa [hd] using this
+      · have := respond_spec sub sts
+          { c with batchesSent := c.batchesSent + 1, msgsSent := c.msgsSent + sub.length }
+        simpa [hd] using this
+    · rw [if_neg hc]; simp
+
+/-- what one iteration of the outer loop does to the gauge, the error counter and the request log -/
+theorem sendChunk_spec (cfg : Cfg) (script : List Srv) (now i : Nat) (ch : Chunk) (acc : Acc) :
+    let r := sendChunk cfg script now i ch acc
+    r.ctr.ups = acc.ctr.ups ∧
+    r.ctr.downs = acc.ctr.downs + (ch.dropped.length + ch.sub.length) ∧
+    acc.ctr.rerr + ch.dropped.length ≤ r.ctr.rerr ∧
+    ∃ l, r.log = acc.log ++ l ∧ l.length ≤ maxTries ∧
+      ∀ a ∈ l, a.dest = ch.dest ∧ a.events = ch.sub ∧ a.bodyLen = bodyLen ch ∧ a.time = now ∧
+        a.chunk = i ∧ ch.sub ≠ [] := by
+  simp only [sendChunk]
+  by_cases he : ch.sub.isEmpty = true
+  · rw [if_pos he]
+    have : ch.sub.length = 0 := by simpa using he
+    exact ⟨rfl, by simp [this, countDropped], by simp [countDropped], [], by simp [countDropped], by simp, by simp⟩
+  · rw [if_neg he]
+    have hne : ch.sub ≠ [] := by simpa using he
+    by_cases hb : cfg.badUrl ch.dest = true
+    · rw [if_pos hb]
+      refine ⟨by simp [batchFailure, countDropped], by simp [batchFailure, countDropped]; omega,
+        by simp [batchFailure, countDropped], [], by simp [countDropped], by simp, by simp⟩
+    · rw [if_neg hb]
+      generalize hacc0 : countDropped ch.dropped.length acc = acc0
+      have hs := tryLoop_spec script now (fun p => ⟨ch.dest, ch.sub, bodyLen ch, now, i, p⟩) ch.sub.length
+        maxTries 0 .none acc0
+      obtain ⟨⟨q1, q2, q3⟩, ⟨l, e1, e2, e3⟩, e4⟩ := hs
+      have hnn := e4 (Or.inl (by decide))
+      obtain ⟨f1, f2, f3⟩ := finish_spec _ ch.sub
+        (tryLoop script now (fun p => ⟨ch.dest, ch.sub, bodyLen ch, now, i, p⟩) ch.sub.length maxTries 0 .none acc0).2.ctr hnn
+      have a1 : acc0.ctr.ups = acc.ctr.ups := by subst hacc0; rfl
+      have a2 : acc0.ctr.downs = acc.ctr.downs + ch.dropped.length := by subst hacc0; rfl
+      have a3 : acc0.ctr.rerr = acc.ctr.rerr + ch.dropped.length := by subst hacc0; rfl
+      have a4 : acc0.log = acc.log := by subst hacc0; rfl
+      refine ⟨?_, ?_, ?_, l, ?_, e2, ?_⟩
+      · simp only []; rw [f1, q1, a1]
+      · simp only []; rw [f2, q2, a2]; omega
+      · simp only []; omega
+      · simp only []; rw [e1, a4]
+      · intro a ha
+        obtain ⟨p, rfl⟩ := e3 a ha
+        exact ⟨rfl, rfl, rfl, rfl, rfl, hne⟩
+
+theorem sendChunks_spec (cfg : Cfg) (script : List Srv) (now : Nat) :
+    ∀ (cs : List Chunk) (i : Nat) (acc : Acc),
+      let r := sendChunks cfg script now cs i acc
+      r.ctr.ups = acc.ctr.ups ∧
+      r.ctr.downs = acc.ctr.downs + chunkTotal cs ∧
+      acc.ctr.rerr + (cs.flatMap (·.dropped)).length ≤ r.ctr.rerr ∧
+      ∃ l, r.log = acc.log ++ l ∧
+        (∀ a ∈ l, i ≤ a.chunk ∧ a.time = now ∧ ∃ ch ∈ cs, a.dest = ch.dest ∧ a.events = ch.sub ∧
+          a.bodyLen = bodyLen ch ∧ ch.sub ≠ []) ∧
+        ∀ j, (l.filter (fun a => a.chunk = j)).length ≤ maxTries := by
+  intro cs
+  induction cs with
+  | nil => intro i acc; exact ⟨rfl, by simp [sendChunks, chunkTotal], by simp [sendChunks], [], by simp [sendChunks], by simp, by simp⟩
+  | cons ch cs ih =>
+    intro i acc
+    simp only [sendChunks]
+    obtain ⟨s1, s2, s3, l1, s4, s5, s6⟩ := sendChunk_spec cfg script now i ch acc
+    obtain ⟨r1, r2, r3, l2, r4, r5, r6⟩ := ih (i + 1) (sendChunk cfg script now i ch acc)
+    refine ⟨by rw [r1, s1], ?_, ?_, l1 ++ l2, ?_, ?_, ?_⟩
+    · rw [r2, s2]; simp [chunkTotal]; omega
+    · simp only [List.flatMap_cons, List.length_append] at *; omega
+    · rw [r4, s4]; simp
+    · intro a ha
+      rcases List.mem_append.mp ha with ha | ha
+      · obtain ⟨d1, d2, d3, d4, d5, d6⟩ := s6 a ha
+        exact ⟨by omega, d4, ch, List.mem_cons_self, d1, d2, d3, d6⟩
+      · obtain ⟨d1, d2, c, hc, d3⟩ := r5 a ha
+        exact ⟨by omega, d2, c, List.mem_cons_of_mem _ hc, d3⟩
+    · intro j
+      rw [List.filter_append, List.length_append]
+      by_cases hj : j = i
+      · have : (l2.filter (fun a => a.chunk = j)) = [] := by
+          apply List.filter_eq_nil_iff.mpr
+          intro a ha; have := (r5 a ha).1; simp; omega
+        rw [this]; simp
+        exact Nat.le_trans (List.length_filter_le _ _) s5
+      · have : (l1.filter (fun a => a.chunk = j)) = [] := by
+          apply List.filter_eq_nil_iff.mpr
+          intro a ha; have := (s6 a ha).2.2.2.2.1; simp; omega
+        rw [this]; simpa using r6 j
+
+/-- **one `sendBatch`**: the gauge goes down by exactly the number of events handed in, every
+unfit event is counted as an error, and every request carries one sub-batch of the split. -/
+theorem sendBatch_spec (cfg : Cfg) (script : List Srv) (now : Nat) (evs : List Ev) :
+    let r := sendBatch cfg script now evs
+    r.ctr.ups = 0 ∧ r.ctr.downs = evs.length ∧
+    (evs.filter (fun e => !fits maxE e)).length ≤ r.ctr.rerr ∧
+    (∀ a ∈ r.log, a.time = now ∧ ∃ ch ∈ (split evs).1, a.dest = ch.dest ∧ a.events = ch.sub ∧
+        a.bodyLen = bodyLen ch ∧ ch.sub ≠ []) ∧
+    ∀ j, (r.log.filter (fun a => a.chunk = j)).length ≤ maxTries := by
+  obtain ⟨h1, h2, h3, l, h4, h5, h6⟩ := sendChunks_spec cfg script now (split evs).1 0 {}
+  have hc := split_complete evs
+  have ht : chunkTotal (split evs).1 = evs.length := splitLoop_total maxB maxE _ _ hc
+  have hd := splitLoop_dropped maxB maxE _ _ hc
+  simp only [sendBatch]
+  refine ⟨h1, by rw [h2, ht]; simp, ?_, ?_, ?_⟩
+  · have : (List.flatMap (fun x => x.dropped) (split evs).1) = evs.filter (fun e => !fits maxE e) := hd
+    rw [this] at h3; simpa using h3
+  · intro a ha
+    rw [h4] at ha; simp at ha
+    obtain ⟨_, d2, d3⟩ := h5 a ha
+    exact ⟨d2, d3⟩
+  · intro j; rw [h4]; simpa using h6 j
 
 end Refinery.Model.Transmit
